@@ -73,6 +73,58 @@ def hmmStep (tp : List Nat) (e : Nat → Int) (h : St) : St :=
   let best := if n0 > best then n0 else best
   ⟨n0, n1, n2, out, best⟩
 
+/-! ### the 5-state evaluator `hmm_vit_eval_5st_lr` (src/hmm.c:166-304)
+
+All transitions `k→k`, `k→k+1`, `k→k+2` are always taken (no `TMAT_WORST_SCORE` tests in this evaluator).
+The exit state and states 4 and 3 are only recomputed when `s3`, `s2`, `s1` (old score + emission) are better
+than `WORST_SCORE`; otherwise the stored value is left untouched.  The C code computes the blocks top-down
+with locals that are not re-read after being overwritten, so each new value is a function of the old state;
+the model writes one function per component.  `tp` is the 5×6 matrix, row-major. -/
+
+structure St5 where
+  s0 : Int
+  s1 : Int
+  s2 : Int
+  s3 : Int
+  s4 : Int
+  out : Int
+  best : Int
+deriving Repr, DecidableEq
+
+/-- `hmm_tprob_5st(i, j) = -tp[i*6 + j]` -/
+def tprob5 (tp : List Nat) (i j : Nat) : Int := - (tp.getD (i * 6 + j) 255 : Nat)
+
+def max2c (a b : Int) : Int := if a > b then a else b
+/-- the nested comparison `if (t0 > t1) { if (t2 > t0) t2 else t0 } else { if (t2 > t1) t2 else t1 }` -/
+def max3c (t0 t1 t2 : Int) : Int := if t0 > t1 then (if t2 > t0 then t2 else t0) else (if t2 > t1 then t2 else t1)
+
+def out5 (tp : List Nat) (e : Nat → Int) (h : St5) : Int :=
+  if h.s3 + e 3 > worstScore then clampW (max2c (h.s4 + e 4 + tprob5 tp 4 5) (h.s3 + e 3 + tprob5 tp 3 5)) else h.out
+def new4 (tp : List Nat) (e : Nat → Int) (h : St5) : Int :=
+  if h.s2 + e 2 > worstScore then
+    clampW (max3c (h.s4 + e 4 + tprob5 tp 4 4) (h.s3 + e 3 + tprob5 tp 3 4) (h.s2 + e 2 + tprob5 tp 2 4))
+  else h.s4
+def new3 (tp : List Nat) (e : Nat → Int) (h : St5) : Int :=
+  if h.s1 + e 1 > worstScore then
+    clampW (max3c (h.s3 + e 3 + tprob5 tp 3 3) (h.s2 + e 2 + tprob5 tp 2 3) (h.s1 + e 1 + tprob5 tp 1 3))
+  else h.s3
+def new2 (tp : List Nat) (e : Nat → Int) (h : St5) : Int :=
+  clampW (max3c (h.s2 + e 2 + tprob5 tp 2 2) (h.s1 + e 1 + tprob5 tp 1 2) (h.s0 + e 0 + tprob5 tp 0 2))
+def new1 (tp : List Nat) (e : Nat → Int) (h : St5) : Int :=
+  clampW (max2c (h.s1 + e 1 + tprob5 tp 1 1) (h.s0 + e 0 + tprob5 tp 0 1))
+def new0 (tp : List Nat) (e : Nat → Int) (h : St5) : Int := clampW (h.s0 + e 0 + tprob5 tp 0 0)
+
+/-- `bestScore` as the C code accumulates it -/
+def best5 (tp : List Nat) (e : Nat → Int) (h : St5) : Int :=
+  let b := if h.s3 + e 3 > worstScore then out5 tp e h else worstScore
+  let b := if h.s2 + e 2 > worstScore then max2c (new4 tp e h) b else b
+  let b := if h.s1 + e 1 > worstScore then max2c (new3 tp e h) b else b
+  max2c (new0 tp e h) (max2c (new1 tp e h) (max2c (new2 tp e h) b))
+
+/-- `hmm_vit_eval_5st_lr` -/
+def hmmStep5 (tp : List Nat) (e : Nat → Int) (h : St5) : St5 :=
+  ⟨new0 tp e h, new1 tp e h, new2 tp e h, new3 tp e h, new4 tp e h, out5 tp e h, best5 tp e h⟩
+
 /-! ### idealised step on the max-plus carrier -/
 
 open SSVerif.Viterbi (omax)
@@ -103,9 +155,34 @@ def hmmStepIdeal (tp : List Nat) (e : Nat → Int) (h : ISt) : ISt × Option Int
   let n0 := oadd a0 (tprob tp 0 0)
   (⟨n0, n1, n2⟩, out)
 
+/-- scores of the five emitting states -/
+structure ISt5 where
+  s0 : Option Int
+  s1 : Option Int
+  s2 : Option Int
+  s3 : Option Int
+  s4 : Option Int
+deriving Repr, DecidableEq
+
+/-- max-plus step of the 5-state left-to-right topology with skips; returns the new state and the exit score -/
+def hmmStepIdeal5 (tp : List Nat) (e : Nat → Int) (h : ISt5) : ISt5 × Option Int :=
+  let a0 := oadd h.s0 (e 0)
+  let a1 := oadd h.s1 (e 1)
+  let a2 := oadd h.s2 (e 2)
+  let a3 := oadd h.s3 (e 3)
+  let a4 := oadd h.s4 (e 4)
+  (⟨oadd a0 (tprob5 tp 0 0),
+    omax (oadd a1 (tprob5 tp 1 1)) (oadd a0 (tprob5 tp 0 1)),
+    omax (omax (oadd a2 (tprob5 tp 2 2)) (oadd a1 (tprob5 tp 1 2))) (oadd a0 (tprob5 tp 0 2)),
+    omax (omax (oadd a3 (tprob5 tp 3 3)) (oadd a2 (tprob5 tp 2 3))) (oadd a1 (tprob5 tp 1 3)),
+    omax (omax (oadd a4 (tprob5 tp 4 4)) (oadd a3 (tprob5 tp 3 4))) (oadd a2 (tprob5 tp 2 4))⟩,
+   omax (oadd a4 (tprob5 tp 4 5)) (oadd a3 (tprob5 tp 3 5)))
+
 /-- `WORST_SCORE` (and anything below) stands for −∞ -/
 def rep (x : Int) : Option Int := if x ≤ worstScore then none else some x
 
 def St.rep (h : St) : ISt := ⟨Hmm.rep h.s0, Hmm.rep h.s1, Hmm.rep h.s2⟩
+
+def St5.rep (h : St5) : ISt5 := ⟨Hmm.rep h.s0, Hmm.rep h.s1, Hmm.rep h.s2, Hmm.rep h.s3, Hmm.rep h.s4⟩
 
 end SSVerif.Hmm
